@@ -360,6 +360,34 @@ pub struct Session {
 }
 
 impl Session {
+    /// The delivery ids within `first..=last` for which the session holds a delivery tag,
+    /// in ascending order. The work done is bounded by the number of known deliveries,
+    /// not by the width of the (peer-chosen) range.
+    fn known_delivery_ids(
+        &self,
+        role: &Role,
+        first: DeliveryNumber,
+        last: DeliveryNumber,
+    ) -> Vec<DeliveryNumber> {
+        if last < first {
+            return Vec::new();
+        }
+        if ((last - first) as usize) < self.delivery_tag_by_id.len() {
+            (first..=last)
+                .filter(|id| self.delivery_tag_by_id.contains_key(&(role.clone(), *id)))
+                .collect()
+        } else {
+            let mut ids: Vec<DeliveryNumber> = self
+                .delivery_tag_by_id
+                .keys()
+                .filter(|(r, id)| r == role && (first..=last).contains(id))
+                .map(|(_, id)| *id)
+                .collect();
+            ids.sort_unstable();
+            ids
+        }
+    }
+
     /// Creates a builder for [`Session`]
     pub fn builder() -> builder::Builder {
         builder::Builder::new()
@@ -809,9 +837,13 @@ impl endpoint::Session for Session {
 
         // A disposition frame may refer to deliveries on multiple links, each may be running
         // in different mode. This counts the largest sections that can be echoed back together
+        // `first..=last` is chosen by the peer and may span up to 2^32 ids: only visit ids
+        // the session actually knows
+        let delivery_ids_in_range = self.known_delivery_ids(&disposition.role, first, last);
+
         if disposition.settled {
             // If it is alrea
-            for delivery_id in first..=last {
+            for delivery_id in delivery_ids_in_range {
                 let key = (disposition.role.clone(), delivery_id);
                 if let Some((handle, delivery_tag)) = self.delivery_tag_by_id.remove(&key) {
                     if let Some(link_handle) = self.link_by_input_handle.get_mut(&handle) {
@@ -828,7 +860,7 @@ impl endpoint::Session for Session {
             Ok(None)
         } else {
             let mut delivery_ids = Vec::new();
-            for delivery_id in first..=last {
+            for delivery_id in delivery_ids_in_range {
                 let key = (disposition.role.clone(), delivery_id);
                 if let Some((handle, delivery_tag)) = self.delivery_tag_by_id.get(&key) {
                     if let Some(link_handle) = self.link_by_input_handle.get_mut(handle) {
